@@ -84,12 +84,55 @@ def run(tier):
             r.add_sample({"name": p["name"], "source": p["src"], "gir_rows": len(p["rows"])})
     finally:
         os.unlink(path)
+    project_size_leg(r, tier)
     return r
+
+
+def big_project(n):
+    return [dict(name=f"big{i:04d}", src=f"def f(a, b, c):\n    return a + {i}\n") for i in range(n)]
+
+
+def project_size_leg(r, tier):
+    """One project of many small files: every file must get GIR (a file without GIR has no behaviour to preserve), and the
+    files lian numbered first and last are decided like the others."""
+    n = 1100 if tier == "quick" else 3000
+    programs = big_project(n)
+    batch, info = tbatch.build_batch(programs, cmd="lang")
+    r.extra["lian_run_project_size"] = {k: info[k] for k in ("rc", "wall_s", "cmd")}
+    if info["rc"] != 0:
+        r.harness_error(f"lian lang failed on the {n}-file project (rc={info['rc']}): {info['log_tail'][-400:]}")
+        return
+    empty = [p["name"] for p in programs if not p["rows"]]
+    name = f"every file of a {n}-file project gets GIR"
+    if empty:
+        r.add_obligation(name=name, engine="T", status="violated", files=n, without_gir=len(empty))
+        r.report(name, dict(cex=dict(kind="nogir", prog=empty[0], n=n), slice=None), f"nogir:{n}",
+                 f"{len(empty)} of the {n} files of one project got no GIR at all (first: {empty[0]}.py), without any message")
+        return
+    r.add_obligation(name=name, engine="T", status="held", files=n, without_gir=0)
+    order = sorted(range(n), key=lambda i: programs[i]["unit_id"])
+    picked = order[:CHUNK] + order[-CHUNK:]
+    sub = {"programs": [programs[i] for i in picked]}
+    path = tbatch.save_batch(sub)
+    try:
+        b = xrun.Batch(r)
+        b.add(f"CPython == GIR for the first and last {CHUNK} units of the {n}-file project", M, "check_equiv",
+              slices=[dict(batch=path, range=[0, CHUNK], skip=[]), dict(batch=path, range=[CHUNK, 2 * CHUNK], skip=[])],
+              pct=300, ppt=30, bounds={"a,b": "unbounded ints", "c": "bool", "files": n})
+        b.execute()
+        r.counters["programs"] += len(picked)
+    finally:
+        os.unlink(path)
 
 
 def replay(rec):
     """Re-run lian on the recorded program and compare on the recorded arguments."""
     cex = rec["cex"]["cex"]
+    if cex.get("kind") == "nogir":
+        programs = big_project(cex["n"])
+        tbatch.build_batch(programs, cmd="lang")
+        empty = [p["name"] for p in programs if not p["rows"]]
+        return bool(empty), {"files": cex["n"], "without_gir": len(empty), "first": empty[:3]}
     name = cex["prog"]
     allp = {p["name"]: p for p in sum(progs.thorough_family(0), []) + progs.witnesses()}
     if name not in allp:
